@@ -391,7 +391,7 @@ type histDesc struct {
 
 var (
 	annKeyPool  = []string{"a", "b", "org.example.k", "io.cncf.notary.x", "io.cncf.notar", "m1"}
-	metaKeyPool = []string{"m1", "m2", "user.key", "io.cncf.notar", "Io.cncf.notary", "xio.cncf.notary.k", "io.cncf", "", "io.cncf.notarY"}
+	metaKeyPool = []string{"m1", "m2", "user.key", "io.cncf.notar", "Io.cncf.notary", " io.cncf.notary.x", "xio.cncf.notary.k", "io.cncf", "", "io.cncf.notarY"}
 	resKeyPool  = []string{"io.cncf.notary", "io.cncf.notary.x", "io.cncf.notaryfoo", "io.cncf.notary.verificationPlugin", kThumb}
 	valPool     = []string{"v", "", "1", "x y", "w"}
 	mtPool      = []string{"application/vnd.oci.image.manifest.v1+json", "application/vnd.test", "application/vnd.oci.image.index.v1+json"}
@@ -1276,7 +1276,7 @@ func scenarios() []scenEntry {
 			{"reserved-nodot", func() *callSpec { return okStep("v1", map[string]string{"io.cncf.notaryfoo": "x", "m2": "1"}) }, false},
 			{"reserved-dot", func() *callSpec { return okStep("v1", map[string]string{"m2": "", "io.cncf.notary.z": ""}) }, false},
 			{"near-prefix", func() *callSpec {
-				return okStep("v1", map[string]string{"io.cncf.notar": "x", "Io.cncf.notary": "y", "": "z"})
+				return okStep("v1", map[string]string{"io.cncf.notar": "x", "Io.cncf.notary": "y", "": "z", " io.cncf.notary": "w"})
 			}, false},
 			{"digest-elsewhere", func() *callSpec { return okStep("bad", map[string]string{"m1": "v"}) }, false},
 			{"full-digest-elsewhere", func() *callSpec { return okStep("fullbad", map[string]string{"m1": "v"}) }, false},
